@@ -16,7 +16,7 @@ REGISTRY = {
                dict(pkg=APP, test="TestVerifC11Check", env={"VERIF_PANIC_IS_VIOLATION": "1"}, quick=2400, thorough=60000, shards_quick=16, shards_thorough=16),
                dict(pkg=APP, test="TestVerifC11Sim", env={"VERIF_PANIC_IS_VIOLATION": "1"}, quick=600, thorough=20000, shards_quick=16, shards_thorough=16),
                dict(pkg=APP, test="TestVerifC06", env={"VERIF_PANIC_IS_VIOLATION": "1"}, quick=1000, thorough=20000, shards_quick=16, shards_thorough=16),
-               dict(pkg=APP, test="TestVerifC20Race", race=True, gomaxprocs=4, quick=8, thorough=160, shards_quick=4, shards_thorough=4, report_unconfirmed=True)],
+               dict(pkg=APP, test="TestVerifC20Race", race=True, gomaxprocs=4, quick=24, thorough=240, shards_quick=4, shards_thorough=4, report_unconfirmed=True)],
     ),
     "C04": dict(
         level="exploration",
